@@ -208,32 +208,26 @@ theorem only_dot_entries_correct (b : Dir) (henc : ∀ e ∈ b, Enc e) :
     onlyDotEntries (encodeAll b) = onlyDotsL b :=
   onlyDotEntries_encoded b henc
 
-/-- **Pseudo directories: resume from any offset.**  The reply to `offset = k` is a prefix of
-    the children from index `k` on, the `i`-th child carrying offset `i + 1` and type DT_UNKNOWN,
-    within the requested size. -/
+/-- **Pseudo directories: resume from any offset.**  The reply to `offset = k` — any `k`, also
+    beyond the end or `u64::MAX` — is a prefix of the children from index `k` on, the `i`-th child
+    carrying offset `i + 1` and type DT_UNKNOWN, within the requested size. -/
 theorem pseudo_resume_from_any_offset (children : List PChild) (plus : Bool) (size offset : Nat)
-    (hs : size ≠ 0) (ho : offset + 1 < 2 ^ 64) :
-    ∃ p, pseudoRead children plus size offset none = some (.ok p) ∧
+    (hs : size ≠ 0) :
+    ∃ p, pseudoRead children plus size offset none = .ok p ∧
       p <+: pOffers (children.drop offset) offset ∧
       (p.map (fun o => fuseLen plus o.name.length)).sum ≤ size := by
-  refine ⟨_, pseudoRead_spec children plus size offset hs ho, acceptedO_prefix _ _ _ _, ?_⟩
+  refine ⟨_, pseudoRead_spec children plus size offset hs, acceptedO_prefix _ _ _ _, ?_⟩
   have := acceptedO_within size plus (pOffers (children.drop offset) offset) 0 (Nat.zero_le _)
   omega
 
 /-- **Pseudo directories: listing complete, each child once**, for every sequence of buffers that
     hold a child, ending with an empty reply. -/
-theorem pseudo_listing_complete_once (children : List PChild) (hlen : children.length + 1 < 2 ^ 64)
-    (steps : List (Bool × Nat))
+theorem pseudo_listing_complete_once (children : List PChild) (steps : List (Bool × Nat))
     (hsteps : ∀ s ∈ steps, s.2 ≠ 0 ∧ ∀ ch ∈ children, fuseLen s.1 ch.name.length ≤ s.2)
     (hmany : children.length < steps.length) :
     (pwalk children 0 steps).flatten = pOffers children 0 ∧ (pwalk children 0 steps).getLast? = some [] := by
-  have := pwalk_complete children hlen steps 0 (Nat.zero_le _) hsteps (by omega)
+  have := pwalk_complete children steps 0 (Nat.zero_le _) hsteps (by omega)
   simpa using this
-
-/-- the panic site of `PseudoFs::do_readdir` (`offset + 1` with overflow checks on), outside the
-    resume patterns of this property: recorded as an outcome of the model -/
-theorem pseudo_offset_max_panics (children : List PChild) (plus : Bool) :
-    pseudoRead children plus 4096 (2 ^ 64 - 1) none = none := rfl
 
 /-- why every theorem above assumes `eofQuirk = false`: on a host with that ext4 defect the first
     rewind of a descriptor whose first `getdents64` happened at end-of-directory lists nothing -/
